@@ -16,6 +16,7 @@ THEOREMS = [
     "Docstring.ensure_total", "Docstring.doc_total", "Docstring.summary_total", "Docstring.extract_total",
     "Docstring.toc_total_partial", "Docstring.total_partial", "Docstring.total_counterexample",
     "Docstring.base_get_summary_total",
+    "Docstring.toc_spec", "Docstring.fallback_full_text", "Docstring.isolation_source",
     "Docstring.parse_fallback_full_text", "Docstring.ensure_fallback_full_text",
     "Docstring.render_fallback_full_text", "Docstring.unreported_parse_error_counterexample",
     "Docstring.render_failure_reported", "Docstring.render_failure_masked_counterexample",
@@ -750,13 +751,12 @@ def random_fault_case(rng) -> Dict[str, Any]:
 # ------------------------------------------------------------------ fault stream: direct oracle (no Lean model involved)
 
 def spec_source(spec: Dict[str, Any], i: int) -> Optional[int]:
-    """the object whose non-empty docstring documents object i (own first, then inherited)"""
+    """the first object among i and the objects it inherits from that has a docstring (model.get_docstring's `source`;
+    an empty docstring still makes its owner the source)"""
     for s in [i] + INHERITED.get(i, []):
         d = spec["objs"].get(s, {}).get("doc")
-        if d:
-            return s
         if d is not None:
-            return None
+            return s
     return None
 
 
@@ -1037,6 +1037,15 @@ def gen_unicode(rng, surrogates: bool = False) -> str:
     return "".join(out)
 
 
+# past failures, run first in every real stream (the minimal forms of the inputs behind the known findings)
+REGRESSION_DOCS = [
+    "Summary.\n @param a: x\n\n@param b: y",
+    "Summary.\n @ivar a: x\n\n@ivar b: y",
+    " - item \u0301\x0f\x05m\x02B\u2029\xa0\x10\x92",
+    "Args:\n x (list[int\n\nReturns\n-------\n",
+]
+
+
 def gen_real_docstring(rng) -> Tuple[str, str]:
     r = rng.random()
     if r < 0.4:
@@ -1118,6 +1127,8 @@ class Observer:
         cls = type(e).__name__
         if isinstance(e, NotImplementedError) and not isinstance(e, ParseError):
             tok = "ni"
+        elif isinstance(e, AssertionError):
+            tok = "as"
         else:
             n = self.excids.setdefault(cls, len(self.excids) + 1)
             tok = ("p%d" if isinstance(e, ParseError) else "o%d") % n
@@ -1257,7 +1268,8 @@ def run_real_case(w: World, fmt: str, pt: int, x: int, doc: str, td: int, limit:
     ob.spec["ops"] = ops
     main = ob.spec["pd"].get(1)
     bodies = [t["body"] for t in trace if t["op"] == "d" and t["obj"] == x and "body" in t]
-    if main is not None and len({b.startswith("pre:") for b in bodies} | {main["S"][0] == "x"}) > 1:
+    if main is not None and (len({b.startswith("pre:") for b in bodies} | {main["S"][0] == "x"}) > 1
+                             or (main["N"] == "r" and any(t["raised"] is not None for t in trace if t["obj"] == x))):
         # to_stan's outcome changed between calls: outside the model's "parameters are functions" assumption (left to the oracle)
         return None, None, trace, rec
     req = request_of(ob.spec)
@@ -1348,7 +1360,7 @@ def real_oracle(ctx: Ctx, w: World, fmt: str, pt: int, x: int, doc: str, td: int
             nerr += 1
             hidden = [t for t in shown if t["body"] != "pre:" + enc(doc)]
             if hidden:
-                fail("render:failure-hidden-by-cached-state:" + type(fresh_exc).__name__,
+                fail("render:failure-hidden-by-cached-state",
                      "rendering this docstring fails (%s) but format_docstring showed something else than the whole original "
                      "text in %d of %d calls (entry-point order %s): a failed to_node() leaves a half-built cached document behind"
                      % (type(fresh_exc).__name__, len(hidden), len(shown), "".join(t["op"] for t in trace if t["obj"] == x)))
@@ -1366,3 +1378,188 @@ def real_oracle(ctx: Ctx, w: World, fmt: str, pt: int, x: int, doc: str, td: int
         if r[0] not in (x, BYSTANDER):
             fail("isolation:third-object-reported", "a report was filed against an object that was not processed")
     return nerr > 0
+
+
+# ------------------------------------------------------------------ oracle-only stream: lone surrogates through the AST builder
+
+def surrogate_case(ctx: Ctx, fmt: str, pt: int, doc: str, limit: float) -> None:
+    """the docstring reaches the objects the way it does in a run: as a string literal in module source"""
+    from pydoctor import model, epydoc2stan as E
+    lit = repr(doc)
+    src = "%s\nclass K:\n    %s\n    def f(self):\n        %s\n    a = 1\n    %s\n" % (lit, lit, lit, lit)
+    inp = {"kind": "surrogate", "fmt": fmt, "pt": pt, "doc_repr": lit}
+    s = model.System()
+    s.options.docformat = FMT_OF[fmt]
+    s.options.processtypes = bool(pt)
+    try:
+        with quiet(), time_limit(limit):
+            b = s.systemBuilder(s)
+            b.addModuleString(src, "sm")
+            b.buildModules()
+    except Hang:
+        ctx.fail("hang:build", inp, "building the module did not finish")
+        return
+    except Exception as e:
+        ctx.fail("build:raises:" + type(e).__name__, inp, "building a module whose docstrings contain a lone surrogate raised")
+        return
+    for name in ("sm", "sm.K", "sm.K.f", "sm.K.a"):
+        o = s.allobjects[name]
+        for opn, fn in (("docstring", E.format_docstring), ("summary", E.format_summary), ("toc", E.format_toc)):
+            try:
+                with quiet(), time_limit(limit):
+                    st = fn(o)
+                    err = None if st is None else flatten_safely(st)[1]
+            except Hang:
+                ctx.fail("hang:" + opn, inp, opn + " did not return")
+                continue
+            except Exception as e:
+                ctx.fail("%s:raises:%s" % (opn, type(e).__name__), inp, "%s raised %s" % (opn, type(e).__name__))
+                continue
+            if err == "UnicodeEncodeError":
+                ctx.fail("render:lone-surrogate-unicodeencodeerror", inp,
+                         "the stan returned by format_%s for a docstring containing a lone surrogate (written as an escape in the "
+                         "source) cannot be flattened: UnicodeEncodeError in twisted's flattener, under every docformat" % opn)
+            elif err:
+                ctx.fail("flatten:%s:%s" % (opn, err), inp, "stan returned by %s cannot be flattened" % opn)
+        ctx.count("surrogate:objects")
+
+
+# ------------------------------------------------------------------ run
+
+def check_no_overrides(ctx: Ctx) -> None:
+    """assumption of the model: get_summary / get_toc are the base-class implementations everywhere"""
+    from pydoctor.epydoc.markup import ParsedDocstring
+    import pydoctor.epydoc.markup.epytext, pydoctor.epydoc.markup.restructuredtext, pydoctor.epydoc.markup.plaintext  # noqa
+    import pydoctor.epydoc.markup._types, pydoctor.epydoc.markup._pyval_repr, pydoctor.epydoc2stan  # noqa
+
+    def subs(c):
+        for s in c.__subclasses__():
+            yield s
+            yield from subs(s)
+    for c in subs(ParsedDocstring):
+        if c.__module__.startswith("harness."):
+            continue
+        for m in ("get_summary", "get_toc"):
+            if m in c.__dict__:
+                ctx.broken.append("correspondence assumption: %s.%s overrides ParsedDocstring.%s" % (c.__module__, c.__name__, m))
+
+
+def run(ctx: Ctx) -> None:
+    check_no_overrides(ctx)
+    w = World()
+    # ---- (a) fault injection on the real wrapper functions
+    cases = list(exhaustive_fault_cases(ctx.quick))
+    ctx.extra["exhaustive_fault_cases"] = len(cases)
+    nrand = 1200 if ctx.quick else 25000
+    cases += [random_fault_case(ctx.rng) for _ in range(nrand)]
+    reqs: List[str] = []
+    impls: List[str] = []
+    pay: List[Any] = []
+    with instrument(w), fault_patches(w):
+        for sp in cases:
+            line, trace = run_fault_case(w, sp)
+            req = request_of(sp)
+            reqs.append(req)
+            impls.append(line)
+            pay.append({"kind": "fault", "spec": spec_json(sp)})
+            nontriv = (" R -" not in line) or "broken" in line or "raise:" in line
+            ctx.case(req, nontriv, {"request": req[:600], "impl": line[:600]} if nontriv and len(ctx.samples) < 2 else None)
+            ctx.count("fault:" + ("single-object" if "x" in sp else "multi-object"))
+            for tok in ("raise:", "broken", "brokensum", "nosum", "undoc"):
+                if tok in line:
+                    ctx.count("fault:out:" + tok.rstrip(":"))
+            fault_oracle(ctx, w, sp, trace)
+    ctx.compare("fault-injection~Docstring.run", reqs, impls, pay)
+    ctx.exhaustive = True
+    # ---- (b) real parsers
+    nstr = 350 if ctx.quick else 1000
+    limit = 20.0
+    reqs, impls, pay = [], [], []
+    sreqs, simpls, spay = [], [], []
+    with instrument(w), record_patches(w):
+        for n in range(nstr):
+            stream, doc = ("regression", REGRESSION_DOCS[n]) if n < len(REGRESSION_DOCS) else gen_real_docstring(ctx.rng)
+            combos = [(f, (n + fi) % 2, (n + fi) % 4) for fi, f in enumerate("ergnp")] if ctx.quick else \
+                     [(f, pt, x) for f in "ergnp" for pt in (0, 1) for x in (0, 1, 2, 3)]
+            for ci, (fmt, pt, x) in enumerate(combos):
+                td = [0, 1, 3][(n + ci) % 3]
+                try:
+                    req, line, trace, rec = run_real_case(w, fmt, pt, x, doc, td, limit, n + ci)
+                except Hang:
+                    ctx.fail("hang:observe", {"kind": "real", "fmt": fmt, "pt": pt, "x": x, "td": td, "doc": doc}, "re-rendering hung")
+                    continue
+                nontriv = real_oracle(ctx, w, fmt, pt, x, doc, td, trace, rec, stream)
+                canonical = "real %s %d %d %s" % (fmt, pt, x, enc(doc))
+                ctx.case(canonical, nontriv, {"docformat": FMT_OF[fmt], "processtypes": pt, "kind": KINDS[x], "docstring": doc[:200],
+                                              "impl": (line or "")[:300]} if nontriv and len(ctx.samples) < 5 else None)
+                ctx.count("real:" + stream.split(":")[0])
+                ctx.count("real:fmt:" + FMT_OF[fmt])
+                if rec is not None:
+                    ctx.count("real:parser:" + ("raised:" + type(rec[1]).__name__ if rec[0] == "raise" else "returned" + ("+errors" if rec[2] else "")))
+                if req is None:
+                    ctx.count("real:model-skipped(nondeterministic renderer or hang)")
+                else:
+                    reqs.append(req)
+                    impls.append(line)
+                    pay.append({"kind": "real", "fmt": fmt, "pt": pt, "x": x, "td": td, "doc": doc, "order": n + ci})
+                # epytext.parse: raises exactly the first fatal error it stored
+                if fmt == "e" and pt == 0 and rec is not None:
+                    from pydoctor.epydoc.markup import ParseError
+                    errs = rec[2]
+                    if rec[0] == "ret" or isinstance(rec[1], ParseError):
+                        idx = {id(e): i + 1 for i, e in reversed(list(enumerate(errs)))}
+                        sreqs.append("docstring signal " + (";".join("%d/n/%d" % (i + 1, int(e.is_fatal())) for i, e in enumerate(errs)) or "-"))
+                        simpls.append("ok return" if rec[0] == "ret" else "ok raise m%s" % idx.get(id(rec[1]), "?"))
+                        spay.append({"kind": "real", "fmt": fmt, "pt": pt, "x": x, "td": td, "doc": doc})
+    ctx.compare("real-parsers~Docstring.run", reqs, impls, pay)
+    ctx.compare("epytext.parse~Docstring.epytextSignal", sreqs, simpls, spay)
+    # ---- (c) lone surrogates (oracle only: they cannot travel to the model)
+    nsur = 6 if ctx.quick else 60
+    for n in range(nsur):
+        doc = gen_unicode(ctx.rng, surrogates=True) if n else "x \udc80 y"
+        for fi, fmt in enumerate("ergnp"):
+            surrogate_case(ctx, fmt, (n + fi) % 2, doc, limit)
+            ctx.case("surrogate %s %r" % (fmt, doc), True, None)
+
+
+# ------------------------------------------------------------------ replay
+
+def replay(ctx: Ctx, obj) -> int:
+    inp = obj.get("input") or obj.get("request") or {}
+    w = World()
+    if inp.get("kind") == "fault":
+        sp = spec_unjson(inp["spec"])
+        with instrument(w), fault_patches(w):
+            line, trace = run_fault_case(w, sp)
+            n0 = len(ctx.failures)
+            fault_oracle(ctx, w, sp, trace)
+        req = request_of(sp)
+        print("request:", req)
+        print("impl   :", line)
+    elif inp.get("kind") == "real":
+        with instrument(w), record_patches(w):
+            req, line, trace, rec = run_real_case(w, inp["fmt"], inp["pt"], inp["x"], inp["doc"], inp["td"], 20.0, inp.get("order", 0))
+            n0 = len(ctx.failures)
+            real_oracle(ctx, w, inp["fmt"], inp["pt"], inp["x"], inp["doc"], inp["td"], trace, rec, inp.get("stream", "replay"))
+        print("docstring:", repr(inp["doc"]))
+        print("request:", req)
+        print("impl   :", line)
+    elif inp.get("kind") == "surrogate":
+        n0 = len(ctx.failures)
+        surrogate_case(ctx, inp["fmt"], inp["pt"], ast.literal_eval(inp["doc_repr"]), 20.0)
+        req = None
+        print("docstring:", inp["doc_repr"])
+    else:
+        print(obj)
+        return 0
+    if req:
+        try:
+            print("model  :", ctx.driver.run([req])[0])
+        except Exception as e:
+            print("model  : unavailable", e)
+    new = ctx.failures[n0:]
+    for f in new:
+        print("oracle :", f["signature"], "-", f["what"])
+    if not new:
+        print("oracle : property holds on this input")
+    return 1 if new else 0
